@@ -6,7 +6,13 @@ MODEL  : lean/NmVerif/Simd/*.lean (packed loop + tail, enumerators) run on integ
 ORACLE : NumPy on the logical arrays (independent statement of what the scalar evaluator must give).
 """
 import numpy as np
-from runner import Case
+from runner import Case as _Case
+
+
+def Case(req, harness, **kw):
+    """the Lean driver is shared by all properties: C12 requests carry the prefix `c12.` there"""
+    kw.setdefault('mreq', 'c12.' + req)
+    return _Case(req, harness, **kw)
 from shapes import prod, fmt
 
 ID = 'C12'
